@@ -1,5 +1,6 @@
 import Pyxv.Model.Base
 import Pyxv.Generated.Tables
+import Pyxv.Model.Spell
 /-!
 # Process: the state that outlives one conversion (property C14)
 
@@ -430,5 +431,38 @@ def Thread.recorded (t : Thread) : List (Nat × Nat) := t.emitted.map fun e => (
 
 /-- repaired `parse_expression` (expression.py:104-111): positions recomputed from `len(t.value)` -/
 def Thread.fixed (t : Thread) : List (Nat × Nat) := positions (t.emitted.map (·.1))
+
+/-! ## 6. the caller's input dict after a conversion (F23 family)
+
+After d7ea67c the settings rows are copied before `id_string` is popped.  What `workbook_to_json`
+still changes in the caller's dict: `clean_text_values` (xls2json.py:89-113) assigns the cleaned text
+back into the caller's row dicts and, for the choices sheet, stores the row number under `__row`. -/
+
+/-- a cell of an input row: text, or a non-string (the `__row` number of an earlier conversion) -/
+inductive Cell where
+  | str (s : Str)
+  | int (n : Nat)
+  deriving DecidableEq, Repr
+
+/-- `if isinstance(value, str) and value: row[key] = clean(value)` -/
+def cleanCell (sw : Bool) : Cell → Cell
+  | .str s => if s.isEmpty then .str s else .str (Pyxv.Spell.cleanText sw s)
+  | .int n => .int n
+
+/-- one row through `clean_text_values(strip_whitespace=sw, add_row_number=n.isSome)`: this is both the
+row the rest of the conversion reads and the row left behind in the caller's dict -/
+def cleanRow (sw : Bool) (n : Option Nat) (row : List (Str × Cell)) : List (Str × Cell) :=
+  let r := row.map fun kv => (kv.1, cleanCell sw kv.2)
+  match n with
+  | some k => aset "__row".toList (.int k) r
+  | none => r
+
+/-- a sheet: rows numbered from 2 -/
+def cleanSheetFrom (sw addRow : Bool) : Nat → List (List (Str × Cell)) → List (List (Str × Cell))
+  | _, [] => []
+  | i, r :: rs => cleanRow sw (if addRow then some i else none) r :: cleanSheetFrom sw addRow (i + 1) rs
+
+def cleanSheet (sw addRow : Bool) (rows : List (List (Str × Cell))) : List (List (Str × Cell)) :=
+  cleanSheetFrom sw addRow 2 rows
 
 end Pyxv.Process
